@@ -544,9 +544,10 @@ class BuiltinModelLoaderGen(ModelLoaderGen):
                     state.builder.empty_line()
                     if not state.path and self._name_layout.extra_move == ExtraKwargs():
                         # only strings can be passed as names of keyword arguments
+                        bad_keys = f"{{key for key in {state.v_extra} if type(key) is not str}}"
                         state.builder += f"""
                             if not all(type(key) is str for key in {state.v_extra}):
-                                {state.emit_error(f"TypeLoadError(str, next(key for key in {state.v_extra} if type(key) is not str))")}
+                                {state.emit_error(f"ExtraFieldsLoadError({bad_keys}, {state.v_data})")}
                         """
                         state.builder.empty_line()
 
